@@ -26,6 +26,8 @@ func init() {
 
 func runC10(w *World, r *Report) {
 	hrTotalCountsAllGroups(w, r, "R3")
+	hrArrivalTimestampExact(w, r, "R4")
+	hrNoDedupBeforeUniqueness(w, r, "R8")
 	hrTimeoutAboveTTL(w, r, "R6")
 	hrCountsCopy(w, r, "R3")
 	// arrival order inside one priority is the order of the (monotonic) clock readings (C11.R4)
